@@ -92,7 +92,7 @@ def _gen_get_child_nodes_func(
                 body += f"{_IND*2}yield o\n"
             else:
                 # Non-collection yield id child is not None
-                body += f"{_IND}if self.{f.name}:\n"
+                body += f"{_IND}if self.{f.name} is not None:\n"
                 body += f"{_IND*2}yield self.{f.name}\n"
 
         for f, type_info in sorted(child_fields.items(), key=lambda x: x[0].name):
@@ -142,7 +142,7 @@ def _gen_get_child_nodes_with_field_func(
                 body += f"{_IND*2}yield o, _fld_{f.name}, i\n"
             else:
                 # Non-collection yield id child is not None
-                body += f"{_IND}if self.{f.name}:\n"
+                body += f"{_IND}if self.{f.name} is not None:\n"
                 body += f"{_IND*2}yield self.{f.name}, _fld_{f.name}, None\n"
 
         for f, type_info in sorted(child_fields.items(), key=lambda x: x[0].name):
